@@ -79,7 +79,7 @@ class TimeRoundTrip(Obligation):
     timeout_ms = 60000
     stubs = ('datetime reference (symdatetime calendar tables)',)
     encoding_fragile = True          # AST slice of ncf2uamiv
-    replay_only_labels = ('payload',)
+    replay_only_labels = ('payload', 'rewrite', 'file-header-span')
 
     def fallback_inputs(self):
         last = 366 if self.year % 4 == 0 else 365
@@ -104,6 +104,17 @@ class TimeRoundTrip(Obligation):
                 'PseudoNetCDF.camxfiles.uamiv.Write', 'ncf2uamiv',
                 ['time_hdr[]'], guards=False, space=sp,
                 provided=['ncffile', 'time_hdr'])
+            # the file header repeats the span of the time records
+            try:
+                run2, info2 = loader.slice_kernel(
+                    'PseudoNetCDF.camxfiles.uamiv.Write', 'ncf2uamiv',
+                    ['time_hdr[]', 'emiss_hdr[]'], guards=False, space=sp,
+                    provided=['ncffile', 'time_hdr', 'emiss_hdr', 'np',
+                              '_emiss_hdr_fmt'])
+                self._span = run2
+                info = info2
+            except loader.HarnessError:
+                self._span = None
             wmod = sp.twin('PseudoNetCDF.camxfiles.uamiv.Write')
             conv = sp.twin('PseudoNetCDF.ArrayTransforms').ConvertCAMxTime
             self._k = (run, info, wmod, conv, sp)
@@ -179,6 +190,29 @@ class TimeRoundTrip(Obligation):
                     common.eq_expr(etflag2[t, 0, 1], e[1]))
         h.observe('tflag', [[tflag2[t, 0, 0], tflag2[t, 0, 1]]
                             for t in range(self.T)])
+        span = getattr(self, '_span', None)
+        if span is not None:
+            class _EH(dict):
+                def __setitem__(self, k, v):
+                    dict.__setitem__(self, k, v)
+            env2 = dict(wmod.__dict__)
+            nc.dimensions = {'VAR': range(1)}
+            env2.update({'ncffile': nc, 'time_hdr': _Fields(),
+                         'emiss_hdr': _EH()})
+            try:
+                out2 = span(env2)
+                eh, th2 = out2['emiss_hdr'], out2['time_hdr']
+
+                def one(x):
+                    return np.asarray(x, dtype=object).reshape(-1)[0]
+                h.claim('file-header-span', z3.And(
+                    common.eq_expr(one(eh['ibdate']), th2['ibdate'][0]),
+                    common.eq_expr(one(eh['btime']), th2['btime'][0]),
+                    common.eq_expr(one(eh['iedate']), th2['iedate'][-1]),
+                    common.eq_expr(one(eh['etime']), th2['etime'][-1])))
+            except Exception as ex:
+                h.candidate('header-span-raised:' + type(ex).__name__,
+                            repr(ex)[:200])
 
     def real(self, inputs):
         """write a real uamiv file with the library writer from an in-memory
@@ -234,6 +268,28 @@ class TimeRoundTrip(Obligation):
                     g = uamiv(path)
                     t2 = np.array(g.variables['TFLAG'][:, 0, :])
                     e2 = np.array(g.variables['ETFLAG'][:, 0, :])
+                    # file header span = first begin .. last end
+                    import struct
+                    blob = open(path, 'rb').read()
+                    hb = struct.unpack('>ifif', blob[4 + 288:4 + 304])
+                    # header records: 304, 60, 16 and 40 (one species) bytes,
+                    # each framed by two 4-byte markers; a data record holds
+                    # ione, the name (10 words) and 2 x 2 cells
+                    off = (304 + 8) + (60 + 8) + (16 + 8) + (40 + 8)
+                    nrec = 4 * (11 + 4) + 8
+                    first = struct.unpack('>ifif', blob[off + 4:off + 20])
+                    lo = off + (self.T - 1) * (24 + nrec)
+                    last = struct.unpack('>ifif', blob[lo + 4:lo + 20])
+                    if (hb[0], hb[1], hb[2], hb[3]) != (
+                            first[0], first[1], last[2], last[3]):
+                        viol['file-header-span'] = 'header %r, records ' \
+                            'begin %r end %r' % (hb, first[:2], last[2:])
+                    # writing the re-read file again gives the same bytes
+                    path2 = path + '.again'
+                    ncf2uamiv(g, path2).close()
+                    if open(path2, 'rb').read() != blob:
+                        viol['rewrite'] = 'bytes differ when the re-read ' \
+                            'file is written again'
                     if not np.array_equal(
                             np.array(g.variables['O3'], dtype='f').view('i4'),
                             pay.view('i4')):
@@ -427,6 +483,21 @@ class LatBndTimeRoundTrip(TimeRoundTrip):
                 if 'layout' not in viol and sizes != exp:
                     viol['layout'] = 'record sizes %r, format %r' % (
                         sizes[:12], exp[:12])
+                if 'layout' not in viol:
+                    # edge definition records: ione, edge number, cell count,
+                    # then per cell (index of the first modelled cell next
+                    # to the edge, 0, 0, 0); 0 for the two corner cells
+                    for ei, (en, n) in enumerate(edges):
+                        inner = {'WEST': 2, 'EAST': ncol - 1, 'SOUTH': 2,
+                                 'NORTH': nr - 1}[en]
+                        cells = []
+                        for c in range(n):
+                            cells += [inner if 0 < c < n - 1 else 0, 0, 0, 0]
+                        want = struct.pack('>%di' % (3 + 4 * n), 1, ei + 1,
+                                           n, *cells)
+                        if bodies[4 + ei] != want:
+                            viol['layout'] = 'definition record of the ' \
+                                '%s edge differs from the format' % en
                 if 'layout' not in viol:
                     k = 8
                     for t in range(self.T):
